@@ -17,51 +17,7 @@ from sa.cli import run_property  # noqa: E402
 from sa.loader import REPO, Tree, read_sources  # noqa: E402
 
 
-class Renamer(ast.NodeTransformer):
-    def __init__(self, names: set[str]):
-        self.names = names
-
-    def visit_Name(self, node: ast.Name):
-        if node.id in self.names:
-            return ast.copy_location(ast.Name(id=node.id + "_r", ctx=node.ctx), node)
-        return node
-
-    def visit_ExceptHandler(self, node):
-        self.generic_visit(node)
-        if node.name in self.names:
-            node.name = node.name + "_r"
-        return node
-
-
-def rename_locals(src: str) -> str:
-    tree = ast.parse(src)
-    nested = {id(inner) for outer in ast.walk(tree) if isinstance(outer, (ast.FunctionDef, ast.AsyncFunctionDef))
-              for inner in ast.walk(outer) if inner is not outer and isinstance(inner, (ast.FunctionDef, ast.AsyncFunctionDef))}
-    for fn in [n for n in ast.walk(tree) if isinstance(n, (ast.FunctionDef, ast.AsyncFunctionDef)) and id(n) not in nested]:
-        # only top-level functions / methods: nested ones are renamed with their parent
-        params = set()
-        declared = set()
-        for n in ast.walk(fn):
-            if isinstance(n, (ast.FunctionDef, ast.AsyncFunctionDef, ast.Lambda)):
-                a = n.args
-                params |= {x.arg for x in [*a.posonlyargs, *a.args, *a.kwonlyargs]}
-                if a.vararg:
-                    params.add(a.vararg.arg)
-                if a.kwarg:
-                    params.add(a.kwarg.arg)
-                if not isinstance(n, ast.Lambda) and n is not fn:
-                    declared.add(n.name)
-            if isinstance(n, (ast.Global, ast.Nonlocal)):
-                declared |= set(n.names)
-            if isinstance(n, (ast.Import, ast.ImportFrom)):
-                declared |= {(al.asname or al.name).split(".")[0] for al in n.names}
-            if isinstance(n, ast.ClassDef):
-                declared.add(n.name)
-        stores = {n.id for n in ast.walk(fn) if isinstance(n, ast.Name) and isinstance(n.ctx, ast.Store)}
-        names = stores - params - declared
-        if names:
-            Renamer(names).visit(fn)
-    return ast.unparse(tree)
+from sa.selftest import rename_locals  # noqa: E402
 
 
 def main() -> int:
